@@ -11,6 +11,14 @@
                  "ud"/"du"  one direction runs until it has ended, then the other
                  "alt"      strict alternation while both run
                  "free"     any interleaving (simulation mode)
+                 "px"       the schedules of the DATA PHASE that can be forced on the real Proxy() when only the client
+                            connection is gated (the covert leg is a kernel socket): deadline refreshes are not
+                            scheduling points (they run first, up before down), up's Write to the covert follows its
+                            Read at once, and the driver decides when the client's Read returns (and how full it fills
+                            the buffer it was handed), when the covert sends (down's Read) and when the client accepts
+                            down's Write - so every placement of an up Read/Write block relative to down's
+                            Read -> Write windows is enumerated.  The behaviour is complete when both directions have
+                            made MaxReads data reads and delivered them (the driver then ends the session).
                eager: a pending Close(src) runs before anything else; lazy: only after Proxy returned. *)
 EXTENDS Relay, Json
 CONSTANTS MaxFaults, Scheds, Asyncs
@@ -19,7 +27,10 @@ gvars == <<vars, hist, faults, sched, async, turn>>
 
 Other(d) == IF d = "up" THEN "down" ELSE "up"
 Active(d) == pc[d] \notin {"idle", "done"}
-Terminal == pcP = "returned" /\ \A d \in Dirs : asrc[d] # "pending"
+PxDone == sched = "px" /\ \A d \in Dirs : pc[d] = "rd" /\ nreads[d] = MaxReads
+Terminal == \/ pcP = "returned" /\ \A d \in Dirs : asrc[d] # "pending"
+            \/ PxDone
+AtDeadline(d) == pc[d] \in {"h0", "h1", "s0", "s1"}
 
 Cost(o) == CASE o.a \in {"Dial", "SetDeadline", "Close", "CloseAsync"} -> IF o.e = "nil" THEN 0 ELSE 1
              [] o.a = "Read"  -> IF (o.n > 0 /\ o.e = "nil") \/ (o.n = 0 /\ o.e = "EOF") THEN 0 ELSE 1
@@ -32,6 +43,9 @@ HalfAllowed(d) ==
   /\ CASE sched = "ud"  -> d = "up" \/ ~Active("up")
        [] sched = "du"  -> d = "down" \/ ~Active("down")
        [] sched = "alt" -> ~Active(Other(d)) \/ turn = d
+       [] sched = "px"  -> IF \E x \in Dirs : AtDeadline(x)
+                             THEN AtDeadline(d) /\ (d = "up" \/ ~AtDeadline("up"))
+                             ELSE d = "up" \/ pc["up"] # "wr"
        [] OTHER -> TRUE
 AsyncAllowed(d) == sched = "free" \/ async = "eager" \/ pcP = "returned"
 ReturnAllowed == (async = "eager" /\ sched # "free") => ~AnyPending
